@@ -1,14 +1,18 @@
 #!/bin/bash
 # Re-runs every seeded change (seeded/*/patch.diff) against the checks named in its meta.json
-# ("checks"); each must be reported by at least one of them.  Scratch copies only; /repo is not touched.
+# ("checks"); each must be reported by at least one of them, except those recorded as a stated limit
+# of the checks ("expected": "missed").  Scratch copies only; /repo is not touched.
 cd "$(dirname "$0")/.."
 fail=0
 for d in seeded/*/; do
   [ -f $d/patch.diff ] || continue
   checks=$(jq -r '.checks[]' $d/meta.json)
+  exp=$(jq -r '.expected // "caught"' $d/meta.json)
   out=$(tools/tryseed.sh $d/patch.diff $checks 2>&1)
   if echo "$out" | grep -q "^VIOLATION"; then
     echo "ok   seed $(basename $d) -> $(echo "$out" | grep -c '^VIOLATION') violation line(s) from: $(echo $checks)"
+  elif [ "$exp" = missed ]; then
+    echo "miss (recorded limit) seed $(basename $d) (checks: $(echo $checks))"
   else
     echo "MISS seed $(basename $d) (checks: $(echo $checks))"; fail=1
   fi
